@@ -364,7 +364,32 @@ func runC14N1(st *c14state) {
 			return
 		}
 		// the membership test: v compared with each scheme constant somewhere in the same function
+		related := func(w ssa.Value) bool {
+			return w == b.X || c14sameElem(w, b.X) || derives(b.X, func(v ssa.Value) bool { return v == w }) || derives(w, func(v ssa.Value) bool { return v == b.X })
+		}
 		eachInstr(f, func(j ssa.Instruction) {
+			// ... or looked up in a list / set of constants: slices.Contains(protoOptions, o), protoSet[o]
+			var members []string
+			switch x := j.(type) {
+			case *ssa.Call:
+				switch stripTypeArgs(calleeName(&x.Call)) {
+				case "slices.Contains", "slices.Index":
+					if len(x.Call.Args) == 2 && related(x.Call.Args[1]) {
+						members = c14constElems(x.Call.Args[0], 0)
+					}
+				}
+			case *ssa.Lookup:
+				if _, isMap := x.X.Type().Underlying().(*types.Map); isMap && related(x.Index) {
+					members = c14constElems(x.X, 0)
+				}
+			}
+			for _, k := range members {
+				for _, p := range want {
+					if k == p || k == "proto="+p {
+						seen[p] = true
+					}
+				}
+			}
 			cmp, ok := j.(*ssa.BinOp)
 			if !ok || cmp.Op != token.EQL {
 				return
@@ -609,6 +634,70 @@ func (g *c14guard) guarded(v ssa.Value, d int) bool {
 }
 
 // c14sameElem: a and b are the same value, or two loads of the same element (constant index) of the same list.
+// c14constElems: the constant strings a list (slice literal, possibly kept in a package-level or local variable) holds,
+// or the constant keys of a map literal.
+func c14constElems(v ssa.Value, d int) []string {
+	if v == nil || d > 4 {
+		return nil
+	}
+	var out []string
+	switch x := v.(type) {
+	case *ssa.ChangeType:
+		return c14constElems(x.X, d+1)
+	case *ssa.UnOp:
+		if x.Op != token.MUL {
+			return nil
+		}
+		switch cell := x.X.(type) {
+		case *ssa.Global:
+			if cell.Pkg == nil {
+				return nil
+			}
+			if init := cell.Pkg.Func("init"); init != nil {
+				eachInstr(init, func(i ssa.Instruction) {
+					if st, ok := i.(*ssa.Store); ok && st.Addr == cell {
+						out = append(out, c14constElems(st.Val, d+1)...)
+					}
+				})
+			}
+		case *ssa.Alloc:
+			for _, st := range c14cellStores(cell) {
+				out = append(out, c14constElems(st.Val, d+1)...)
+			}
+		}
+	case *ssa.Slice:
+		arr, ok := x.X.(*ssa.Alloc)
+		if !ok || arr.Referrers() == nil {
+			return nil
+		}
+		for _, r := range *arr.Referrers() {
+			ia, ok := r.(*ssa.IndexAddr)
+			if !ok || ia.Referrers() == nil {
+				continue
+			}
+			for _, u := range *ia.Referrers() {
+				if st, isStore := u.(*ssa.Store); isStore && st.Addr == ia {
+					if k, isK := constString(st.Val); isK {
+						out = append(out, k)
+					}
+				}
+			}
+		}
+	case *ssa.MakeMap:
+		if x.Referrers() == nil {
+			return nil
+		}
+		for _, r := range *x.Referrers() {
+			if mu, ok := r.(*ssa.MapUpdate); ok && mu.Map == x {
+				if k, isK := constString(mu.Key); isK {
+					out = append(out, k)
+				}
+			}
+		}
+	}
+	return out
+}
+
 func c14sameElem(a, b ssa.Value) bool {
 	if c14sameValue(a, b) {
 		return true
